@@ -188,7 +188,9 @@ func genLiterals(c *core.Check, emit func(Program) bool) {
 	// strings
 	pieces := []string{"'", `"`, "`", `\\`, `\n`, `\r`, `\0`, `\x0a`, `\x22`, `\x27`, `\x3C`, `\u000A`, `\u{22}`, `\u2028`, " ", "\\\n", "${", "$", "{", "}", "</script>", `<\/script>`, "<!--", "a", `\'`, `\"`, "\\`", `\t`, `\v`, `\b`, `\1`, `\8`, `\a`, "\t", "é", "\u2028", `\u{1F600}`, `\ud83d\ude00`, `\ud83d`, "0", `\00`, `\08`,
 		// escapes that decode to a character with a meaning of its own in some quote style
-		`\u005C`, `\u{5C}`, `\x5C`, `\134`, `\u0024`, `\x24`, `\44`, `\u007B`, `\x7B`, `\173`, `\u0060`, `\x60`, `\/script>`, `\u003C`}
+		`\u005C`, `\u{5C}`, `\x5C`, `\134`, `\u0024`, `\x24`, `\44`, `\u007B`, `\x7B`, `\173`, `\u0060`, `\x60`, `\/script>`, `\u003C`,
+		// every way a script element can end in HTML: the tag name in any case, followed by >, / or white space
+		`<\/SCRIPT>`, `<\/script `, `<\/Script/`, `<\/scripT\n`, `<\/script\t`}
 	n := c.Pick(2, 3)
 	seq := core.Sequences{K: len(pieces), MaxLen: n}
 	for i := uint64(0); i < seq.Count(); i++ {
